@@ -66,6 +66,22 @@ inline void op_consts(const Args& a) {
   if (!(g.EquatorialRadius() == w.a && g.Flattening() == w.f && g.Exact() == w.exact)) bad("geodesic-object", "GeodesicObject() differs from the object the Intersect was constructed from");
 }
 
+// ixs_ctor E | ok <constants as ixs_consts>  or  E   -- the constructor's domain: documented as validated for -1/4 <= f <= 1/5 (with the
+// exact geodesic for |f| > 1/50), an exception "sufficiently far outside"; whenever an object is constructed its constants pass the model
+// of the sanity check (Lean: ctorOk), and inside the documented range construction must succeed
+inline void op_ctor(const Args& a) {
+  double aa = unhx(a[0]), f = unhx(a[1]); int exact = std::atoi(a[2].c_str()); std::string out;
+  std::string err = gv::guarded([&] {
+    Geodesic g(aa, f, exact != 0); Intersect in(g);
+    out = "ok " + hx(in._d) + " " + hx(in._t1) + " " + hx(in._t2) + " " + hx(in._t3) + " " + hx(in._t4) + " " + hx(in._t5) + " " + hx(in._d1) + " " + hx(in._d2) + " " + hx(in._d3) + " " +
+          hx(in._delta) + " " + hx(in._tol) + " " + hx(in._eps) + " " + hx(in._rR) + " " + std::to_string(Intersect::numit_);
+  });
+  emit(err.empty() ? out : "E");
+  if (!err.empty() && err != "!E") bad("ctor-exception-kind", "Intersect(Geodesic(a, f)) threw " + err + " instead of GeographicErr");
+  if (!err.empty() && f >= -0.25 && f <= 0.2 && (exact || std::fabs(f) <= 0.02) && aa > 0 && std::isfinite(aa))
+    bad("ctor-documented-range", "Intersect cannot be constructed for f = " + num(f) + " (exact = " + std::to_string(exact) + "), inside the range -1/4 <= f <= 1/5 it is documented as validated for");
+}
+
 inline void op_comp(const Args& a) {
   double delta = unhx(a[0]), px = unhx(a[1]), py = unhx(a[2]), qx = unhx(a[3]), qy = unhx(a[4]), p0x = unhx(a[5]), p0y = unhx(a[6]);
   Intersect::SetComp comp(delta); XP p(px, py), q(qx, qy); Intersect::RankPoint rk(XP(p0x, p0y)), rk2(Pnt(p0x, p0y));
@@ -186,6 +202,7 @@ inline void op_all(const Args& a) {
 
 static Reg r_consts("ixs_consts", op_consts);
 static Reg r_comp("ixs_comp", op_comp);
+static Reg r_ctor("ixs_ctor", op_ctor);
 static Reg r_basic("ixs_basic", op_basic);
 static Reg r_closest("ixs_closest", op_closest);
 static Reg r_next("ixs_next", op_next);
@@ -215,7 +232,11 @@ inline void generate(Rng& r, bool thorough) {
   { const double W = 1 / 298.257223563;
     c17isect::Ell es[] = {{6378137, W, 0}, {6378137, 0, 0}, {6.4e6, 0, 0}, {6378137, 0.015, 0}, {6378137, -0.015, 0}, {6378137, W, 1}, {6.4e6, 1 / 50.0, 1}, {6.4e6, -1 / 50.0, 1},
                           {6.4e6, 0.1, 1}, {6.4e6, -0.1, 1}, {6378137, 1 / 150.0, 0}, {6378388, 1 / 297.0, 0}, {6.4e6, 0.2, 1}, {6.4e6, -0.25, 1}, {1, 0.01, 0}, {6.4e6, 0, 1}};
-    for (auto& e : es) { Args a; putEll(a, e); gv::stratum("ixs:consts-" + c17isect::ellTag(e)); gv::run("ixs_consts", a); } }
+    for (auto& e : es) { Args a; putEll(a, e); gv::stratum("ixs:consts-" + c17isect::ellTag(e)); gv::run("ixs_consts", a); }
+    for (int i = 0; i < (thorough ? 120 : 30); ++i) {
+      int k = r.irange(0, 5); double f = k == 0 ? r.range(-0.25, 0.2) : k == 1 ? r.pick(std::vector<double>{-0.25, 0.2, -0.3, 0.3, 0.35, -0.35, 0.4, -0.4, 0.5, -1, 0.9, 0.99}) : k == 2 ? r.range(-0.6, 0.6) : k == 3 ? r.range(-0.02, 0.02) : k == 4 ? r.range(0.3, 0.4) : r.range(-0.4, -0.3);
+      c17isect::Ell e{r.coin() ? 6378137.0 : 6.4e6 * r.range(0.5, 2), f, (std::fabs(f) > 0.02 || r.coin()) ? 1 : 0};
+      Args a; putEll(a, e); gv::stratum("ixs:ctor"); gv::run("ixs_ctor", a); } }
   for (long i = 0; i < n; ++i) {
     for (int k = 0; k < 4; ++k) genComp(r);
     { c17isect::Ell e = c17isect::pickEll(r); c17isect::Lines L = c17isect::pickLines(r, e);
